@@ -338,6 +338,62 @@ func checkC12(c *Check) {
 	c.Obl(sameSet(wTok, tokKeys) && sameSet(tokKeys, tagSet(tokStruct)), "C12.R2", "tokens/writer=reader=scan", posFn(P, setTok),
 		fmt.Sprintf("token fields agree: %v", sortedKeys(tokKeys)),
 		fmt.Sprintf("token field tables disagree: written %v, read %v, scanned %v — a member is written but never read back (or vice versa)", sortedKeys(wTok), sortedKeys(tokKeys), sortedKeys(tagSet(tokStruct))))
+	// a write that fails half-way leaves no new expiry next to an old token: the access token's expiry member is
+	// written after the access token itself (separate HSET sites in that order, or in that order in the table the
+	// writer iterates) — the reverse order lets a fault between the two turn an expired token into a fresh-looking one
+	if setTok != nil {
+		var atSites, expSites []ssa.Instruction
+		tableOrderOK, sawTable := true, false
+		for _, ci := range allCalls(setTok) {
+			ce := calleeOf(ci)
+			if ce.Obj == nil || ce.Obj.Pkg() == nil || ce.Obj.Pkg().Path() != "github.com/redis/go-redis/v9" || ce.Obj.Name() != "HSet" {
+				continue
+			}
+			ks := constStringArgs(ci, 2)
+			args := callArgs(ci)
+			if len(args) > 2 {
+				if elems, isLit := sliceLitElems(args[2]); isLit && len(elems) > 0 {
+					if _, isK := constString(elems[0]); !isK {
+						if tab, isT := tableFieldConsts(elems[0]); isT {
+							sawTable = true
+							ia, ie := -1, -1
+							for i, k := range tab {
+								if k == "access_token" {
+									ia = i
+								}
+								if k == "access_token_expiry" {
+									ie = i
+								}
+							}
+							if ia >= 0 && ie >= 0 && ie < ia {
+								tableOrderOK = false
+							}
+							continue
+						}
+					}
+				}
+			}
+			if len(ks) > 0 && ks[0] == "access_token" {
+				atSites = append(atSites, ci)
+			}
+			if len(ks) > 0 && ks[0] == "access_token_expiry" {
+				expSites = append(expSites, ci)
+			}
+		}
+		okOrder := tableOrderOK
+		for _, e := range expSites {
+			// on every path the expiry write is preceded by the token write or by the decision not to write the token
+			for _, a := range atSites {
+				if reachAvoiding(e, nil, func(i ssa.Instruction) bool { return i == a }, nil) != nil && !dominatesInstr(a, e) {
+					okOrder = false
+				}
+			}
+		}
+		if len(expSites) > 0 || sawTable {
+			c.Obl(okOrder, "C12.R2", "tokens/expiry-after-token", posFn(P, setTok), "the access token is written before its expiry",
+				"SetTokenResponse writes access_token_expiry before access_token: a Redis fault between the two leaves the new expiry next to the old, expired access token, which is then served as fresh")
+		}
+	}
 	// optional members: HSET or queued for HDEL
 	for k := range hs {
 		if k == "id_token" {
